@@ -18,6 +18,26 @@ PROPS = {
         "level_note": _COMMON_NOTE + "Time is the paused tokio clock in ticks of 2^-9 s; `Instant` arithmetic overflow is out of scope.",
         "assumptions": ["time is the paused tokio clock, in ticks of 2^-9 s"],
     },
+    "C07": {
+        "suites": ["mtu", "pair"],
+        "level_text": "Theorems on the byte budget for every sound compressor (see Props/C07.lean) and on delta content; model tied to compute_partial_delta_respecting_mtu / DeltaSerializer / CompressedStreamWriter / process_message by byte-exact differential runs (admitted ops, recorded length, final reply size on the wire) with budgets swept around every block, size and op boundary and boundary-directed reply-size cases.",
+        "level_note": _COMMON_NOTE + "PARTIAL: the size bound is proved for admitted ops of at most one block (16 KiB); for larger items the upper bound of the code counts two blocks and relies on zstd gain (assumption FullBlockGain, exercised by the mtu suite with near-incompressible 16-65 KB values, not proved).",
+        "assumptions": ["zstd is an abstract sound compressor (never expands a block it reports as compressed; decompresses what it compressed)", "items larger than one block: FullBlockGain assumption, tested not proved"],
+        "partial": "size bound proved for ops <= block threshold; larger items rely on zstd gain (tested)",
+    },
+    "C08": {
+        "suites": ["wire"],
+        "level_text": "Round-trip theorems for every sound compressor and every block threshold: primitives, strings, addresses, ids, digests (as maps), ops, block stream (C08_roundtrip_stream), deltas (C08_roundtrip_delta, exact consumption and recorded length), SYN/SYN-ACK/ACK/BadCluster messages with trailing bytes left alone, announced lengths (C08_len_*). The Lean codec is the independent implementation: real encoder output is decoded by it and its uncompressed / other-block-size encodings are decoded by the real decoder, both compared.",
+        "level_note": _COMMON_NOTE + "Digests round-trip as maps (lookup-equivalence), not as ordered lists. IPv6 flowinfo/scope id are not part of the wire format (known finding KF-2).",
+        "assumptions": ["zstd is an abstract sound compressor"],
+    },
+    "C09": {
+        "suites": ["wire", "apply"],
+        "level_text": "C09_decoded_delta_wf / C09_decoded_msg_wf (every decodable delta is well formed: distinct members, strictly increasing versions, nothing above the announced max), C09_apply_decoded_never_panics, C09_decoded_frontier_monotone, for all byte strings and compressor behaviours; decoder model written with checked accesses only; tied to the real decoder and process_message by random / bit-flipped / truncated / structure-aware datagrams (decode result, error vs value, panics).",
+        "level_note": _COMMON_NOTE + "PARTIAL: absence of panics in the delta *computation* of the reply (serializer assertions) is covered by correspondence, not yet by a theorem; live/dead invariants are C12's theorems.",
+        "assumptions": ["the members known to the node fit a digest in one datagram (property's proviso)"],
+        "partial": "reply-computation assertions covered by correspondence only",
+    },
     "C14": {
         "suites": ["pair"],
         "level_text": "Theorems for all sender copies, receiver copies and truncation points with no invariant assumed (C14_offer_iff, C14_reset_iff, C14_never_refused, C14_strict_progress, C14_nonempty_progress); model tied to compute_partial_delta_respecting_mtu / apply_delta by the exhaustive frontier sweep with exact-fit budgets at every truncation point.",
